@@ -3,7 +3,7 @@ package main
 // Fault injection into protobuf message values (harness primitives vProtoFaultSites / vProtoFault):
 // starting from a message produced by a real encoder, exactly one "site" is damaged the way a
 // hostile or truncated wire message would be: an optional/message field dropped (nil), a bytes
-// field emptied / shortened / lengthened by one byte, a repeated field shortened / lengthened by
+// field absent (nil) / emptied / shortened / lengthened by one byte, a repeated field shortened / lengthened by
 // one element, or one of its elements nil. Sites are numbered in depth-first field order.
 
 import (
@@ -83,6 +83,13 @@ func (w *faultWalker) walkField(slot *value, ft types.Type, path string, depth i
 			return
 		}
 		if isByteSlice(ft) {
+			if sl != nil {
+				// an absent bytes field arrives as a nil slice (decoders tell "absent" from "empty" with != nil)
+				if w.site(path + " absent (nil)") {
+					*slot = []value(nil)
+					return
+				}
+			}
 			if len(sl) > 0 {
 				if w.site(path + " emptied") {
 					*slot = []value{}
